@@ -155,7 +155,7 @@ def compare(verts, faces, R, t, what=None):
 def run_bounded(chk):
     fkey = "coxeter.shapes.polyhedron::Polyhedron (+ extern.polytri.triangulate) end-to-end"
     chk.functions.setdefault(fkey, {"sha": "-", "paths": 0, "lines": 0, "bounded_only": True})
-    ms = meshes(chk.tier, chk.seed)
+    ms = meshes(chk.bounded_tier, chk.seed)
     n_eval = n_bad = 0
     for name, verts, faces in ms:
         for pname, R, t in corpus.placements():
